@@ -5,5 +5,6 @@ CONSTANTS
   Users = {"user1", "user2", "user3"}
   Denoms = {"uwhale", "ubtc", "foreign"}
   PageLimit = 30
+  NS = "1000000000"
 POSTCONDITION Consumed
 CHECK_DEADLOCK FALSE
